@@ -150,7 +150,8 @@ def check_iterate(ctx):
                       f.name, site(f, e), "LDB_OK only if the number of decoded entries equals the header count",
                       "LDB_OK returned without the count check; facts: %s" % fmt_atoms(atoms))
     ctx.require(n == 1, "ldb_batch_iterate: expected one `return LDB_OK`")
-    inc = [e for b, i, e in f.events("inc") if key(e["x"]) == "found"]
+    from ..rules import incr_events
+    inc = [e for b, i, e in incr_events(f, "found", 1)]
     ctx.check(len(inc) == 1, "T2-batch-count", "counted-once", f.name, f.loc,
               "every decoded entry is counted once", "entry counting changed (%d increments)" % len(inc))
     # handlers run only after the entry was fully decoded
